@@ -149,3 +149,20 @@ _add(PropertySpec(
               "of the cone only Entry.update (the result entry that collects the candidates of every refinement) is proved",
     not_decided=["binarize / arrange_leaves / graft, ReconciliationInput.binarize, label_internal (ete3 copy / Newick re-parsing) and the outer loops of _spfs / _uspfs: NOT discharged, bounded stand-in only"],
 ))
+
+_add(PropertySpec(
+    "C13", files=["render"],
+    targets=[f"{MRC}:ReconciliationOutput.node_event"],
+    level="exploration", standins=["diagram:events-losses-transfers-vs-event-model"],
+    technique="bounded stand-in (layout + TikZ of valid reconciliations against the event model recomputed with parent chains); of the cone only node_event "
+              "(the classification the layout reads the kind of every event node from) is proved",
+    not_decided=["_add_losses, _compute_branches, measure_nodes, _tikz_draw_branches: NOT discharged (string-keyed dictionary state, float geometry): bounded stand-in only",
+                 "coordinates beyond 'marker on the trunk edge of the right species / arrow ends at the transferred child's anchor' are not examined (C14 is not applicable)"],
+))
+_add(PropertySpec(
+    "C15", files=["render"],
+    targets=[],
+    level="exploration", standins=["tikz-text:well-formed-and-labels-faithful"],
+    technique="bounded stand-in (generated TikZ text and labels checked against the clauses of the statement; balanced_wrap exhaustively on small word lists); no obligation is discharged for this property yet",
+    not_decided=["balanced_wrap, format_synteny, tex.escape, get_color / render colour interning, colour propagation: NOT discharged, bounded stand-in only"],
+))
